@@ -5,8 +5,26 @@
 From Coq Require Import List NArith Bool Permutation Sorted.
 From RopeVerif.Lib Require Import Text.
 From RopeVerif.C07 Require Import Imports Spec Renaming BasicsProofs SpecProofs SortProofs OrganizeProofs LoadedProofs
-     ExpandProofs IdemProofs Idem2Proofs Layout LayoutProofs Witnesses WitnessProofs.
+     ExpandProofs IdemProofs Idem2Proofs Layout LayoutProofs Unbound StableProofs Witnesses WitnessProofs.
 Import ListNotations.
+
+(* ---- the used names ------------------------------------------------------------------------------------
+   Every theorem below quantifies over the used primaries [used]; the code computes them with
+   _GlobalUnboundNameFinder, modelled in coq/C07/Unbound.v and compared with rope's _get_unbound_names on
+   every generated module.  FULL STRENGTH (refuted): the finder reports every global name the module uses
+   under Python's scoping ([py_unbound_names], validated against CPython's symtable) - it visits default
+   values, decorators and base classes with the inner scope's table, so `def g(x=x)` hides the use of x
+   (finding C07-default-value-hidden: organize_imports then removes the import of x). *)
+Theorem C07_used_names_refuted :
+  exists gnames body u, In u (py_unbound_names gnames body) /\ ~ In u (unbound_names gnames body).
+Proof. exact used_names_refuted. Qed.
+Print Assumptions C07_used_names_refuted.
+
+Example C07_used_names_example :
+  unbound_names [n_g] hidden_body = [[n_print]; [n_la]; [n_la; n_y]] /\
+  py_unbound_names [n_g] hidden_body = [[n_x]; [n_print]; [n_la]; [n_la; n_y]].
+Proof. exact used_names_example. Qed.
+Print Assumptions C07_used_names_example.
 
 (* ---- organize_imports: meaning --------------------------------------------------------------------
    organize_imports (remove unused with the first-import-wins selector, split_imports, remove
@@ -222,6 +240,23 @@ Example C07_idempotent_partial_nonvacuous :
   map s_info (remove_unused w_lay (names_unused ex_used ex_exported) ex_stmts) <> map s_info ex_stmts.
 Proof. exact ex_remove_unused_nonvacuous. Qed.
 Print Assumptions C07_idempotent_partial_nonvacuous.
+
+(* the positive side of the refutation: the block left by the removal of unused imports, put in ANY
+   order (sorting included) in which no name is bound by two import statements ([distinct_heads], the
+   negation of the shape of finding C07-not-idempotent-reselection), is left alone by a further removal *)
+Theorem C07_removal_stable_under_reordering :
+  forall lay names l0 l,
+    Permutation l (remove_unused lay names l0) -> distinct_heads lay l = true ->
+    remove_unused lay names l = l.
+Proof. exact removal_stable_under_reordering. Qed.
+Print Assumptions C07_removal_stable_under_reordering.
+
+Example C07_removal_stable_nonvacuous :
+  let l := sort_imports w_lay false (remove_unused w_lay (names_unused ex_used ex_exported) ex_stmts) in
+  distinct_heads w_lay l = true /\ map s_info l <> map s_info ex_stmts /\
+  distinct_heads w_lay idem_stmts = false.
+Proof. exact ex_stable_nonvacuous. Qed.
+Print Assumptions C07_removal_stable_nonvacuous.
 
 Theorem C07_idempotent_refuted :
   exists lay pr used exported l out out2,
